@@ -130,6 +130,35 @@ theorem sector_halfplane_exact_beyond_margin (n : Pt) (N : K × K) (eps : K) (h 
   ⟨checkRight_of_margin n N eps h delta, checkRight_false_of_margin n N eps h delta,
    checkLeft_of_margin n N eps h delta, checkLeft_false_of_margin n N eps h delta⟩
 
+/-- **The angular claim, proved part.** If both integer normals are within `eps ≤ 16` (of 1024) of
+the exact scaled normals and the pixel belongs to a circle of diameter up to 128, then a pixel at
+least 1.5 px (`3 * 1024` in the scale of the normals, doubled coordinates) inside the sweep —
+measured from the two boundary LINES — is accepted and a pixel more than 1.5 px outside is rejected,
+for `Intersection` (sweep below 180 degrees) and `Union` (from 180 degrees) alike. `hplain` excludes
+only the unresolved sweeps (parallel or wrongly ordered, equally directed normals), which
+`plane_sector_degenerate_is_ray` covers. What remains [V] is the accuracy `NormalWithin` of the real
+trigonometry and the difference between boundary lines and boundary rays near the centre. -/
+theorem sector_angular_partial (ps : PlaneSector)
+    (hplain : 0 < ps.cross ∨ ps.op ≠ .intersection ∨ dotProduct ps.left ps.right ≤ 0)
+    (Nl Nr : K × K) (eps : K) (hl : NormalWithin ps.left Nl eps) (hr : NormalWithin ps.right Nr eps)
+    (he : eps ≤ 16) (delta : Pt) (hd : delta.x * delta.x + delta.y * delta.y < 128 * 128) :
+    (ps.op = .intersection →
+      (exactDist Nl delta ≤ -3072 ∧ 3072 ≤ exactDist Nr delta → ps.contains delta = true) ∧
+      (3072 < exactDist Nl delta ∨ exactDist Nr delta < -3072 → ps.contains delta = false)) ∧
+    (ps.op = .union →
+      (exactDist Nl delta ≤ -3072 ∨ 3072 ≤ exactDist Nr delta → ps.contains delta = true) ∧
+      (3072 < exactDist Nl delta ∧ exactDist Nr delta < -3072 → ps.contains delta = false)) := by
+  have e : ps.contains delta = ps.containsPlain delta := by
+    rcases hplain with h | h
+    · exact PlaneSector.contains_eq_plain_of_cross_pos ps h delta
+    · exact PlaneSector.contains_eq_plain_of_dot_nonpos ps h delta
+  rw [e]
+  exact containsPlain_of_margin ps Nl Nr eps 3072 hl hr delta (margin_le_3072 ps.left Nl eps hl he delta hd)
+example : 0 < (⟨.intersection, ⟨-989, 264⟩, ⟨-511, 887⟩⟩ : PlaneSector).cross ∧
+    NormalWithin (K := Int) ⟨-989, 264⟩ (-989, 265) 1 ∧ NormalWithin (K := Int) ⟨-511, 887⟩ (-512, 886) 1 ∧
+    (1 : Int) ≤ 16 ∧ ((40 : Int) * 40 + 37 * 37 < 128 * 128) := by
+  unfold NormalWithin; decide
+
 end Angular
 
 /-- The bisector test of the (repaired) `PlaneSector::contains` is implied by the two half-plane
